@@ -6,6 +6,7 @@ package c03
 import (
 	"errors"
 	"fmt"
+	"os"
 	"sync"
 	"testing"
 
@@ -49,7 +50,33 @@ func TestCheck(t *testing.T) {
 	// no-op nonce / replace / storage entries, empty diffs - reverted and re-applied at the same and at another height.
 	// Started first and side by side with the BFS below (whose shallow levels leave most cores idle): it is small and
 	// must not be the part the time budget cuts.
+	// reads while the pruner service changes what is retained (prune_test.go): every chain x retention setting x L1-head
+	// sequence x every database read / durable write of the sweep (incl. sweeps that fail part-way) x full read sweep.
+	// Runs FIRST and on its own (about 40 CPU-seconds in the quick tier, a few seconds of wall time on an idle machine): on a
+	// loaded machine the time budget must cut the tail of the big families below, never this one.
+	var pwg sync.WaitGroup
 	for _, newState := range []bool{false, true} {
+		pwg.Add(1)
+		go func(newState bool) {
+			defer pwg.Done()
+			for _, vc := range versionConfigs {
+				if r.Quick() && vc.name != "0.14.0->0.14.1@2" {
+					continue
+				}
+				n := pruneSweeps(r, newState, vc.at, vc.name)
+				mu.Lock()
+				transitions += n
+				mu.Unlock()
+			}
+		}(newState)
+	}
+	pwg.Wait()
+	// VERIF_C03_ONLY=prune (development aid, never set by bin/check): run the prune-sweep family alone
+	onlyPrune := os.Getenv("VERIF_C03_ONLY") == "prune"
+	for _, newState := range []bool{false, true} {
+		if onlyPrune {
+			break
+		}
 		wg.Add(1)
 		go func(newState bool) {
 			defer wg.Done()
@@ -66,6 +93,9 @@ func TestCheck(t *testing.T) {
 		}(newState)
 	}
 	for _, newState := range []bool{false, true} {
+		if onlyPrune {
+			break
+		}
 		wg.Add(1)
 		go func(newState bool) {
 			defer wg.Done()
@@ -124,10 +154,17 @@ func TestCheck(t *testing.T) {
 		"(or of the head when obtained); readers whose block was reverted meanwhile carry no requirement (counted in the outcome histogram); "+
 		"ROOT-NEUTRAL REORGS (neutral_test.go): alphabet extended by pure Cairo-0 declaration / re-declaration, nonce entry = current nonce, replace with the current class and a mix of them with a same-value "+
 		"storage write; every history S.U.revert^|U|.V with S = store-only history of length <= %d, U = n or x.n%s with n root-neutral by the dictionary model (root before == root after), "+
-		"V = every branch of length 1..2 (1 after |U|=2), restart per operation, full read sweep after every operation from U on (%s)", depth,
+		"V = every branch of length 1..2 (1 after |U|=2), restart per operation, full read sweep after every operation from U on (%s); "+
+		"PRUNE SWEEPS (prune_test.go): the real pruner.Pruner service shares a RetentionFloor with one long-lived node: every store-only history of length %s over the shared alphabet + 2 empty blocks "+
+		"x retained in %s x every L1-head sequence a<b and the single deepest sweep x {no fault, the k-th durable write of a sweep fails (every k) then a second sweep} x batch size %s; "+
+		"at EVERY database read of the pruner, after every durable write, after the end of each sweep and after a restart following a completed sweep a reader of every block (by number, by hash) and the head "+
+		"is requested and, whenever the durable image or the set of served blocks changed, fully swept: a served block must equal the dictionary state as of that block, a refusal is accepted below the highest "+
+		"requested prune bound only, blocks at or above it and the head must be served", depth,
 		ev.Pick(r, "at the last two states before the end of the history", "at every state of the history"), ev.Pick(r, "one and two operations", "all the remaining operations"),
-		ev.Pick(r, 1, 2), ev.Pick(r, "", " or n.x"), ev.Pick(r, "mixed-version config", "all version configs")))
-	r.Assume = append(r.Assume, "block alphabet of mc/chain/alphabet.go (+ the root-neutral entries of props/c03/neutral_test.go in the root-neutral family); Pedersen/Poseidon primitives trusted", "go map iteration order inside juno not controlled")
+		ev.Pick(r, 1, 2), ev.Pick(r, "", " or n.x"), ev.Pick(r, "mixed-version config", "all version configs"),
+		ev.Pick(r, "2 (mixed-version config)", "3 (mixed-version config) / 2 (other configs)"), ev.Pick(r, "{0,1}", "{0,1,2}"), ev.Pick(r, "1 byte (commit per block)", "1 byte and default")))
+	r.Assume = append(r.Assume, "block alphabet of mc/chain/alphabet.go (+ the root-neutral entries of props/c03/neutral_test.go in the root-neutral family); Pedersen/Poseidon primitives trusted",
+		"prune-sweep family: no block is stored or reverted while a sweep is in progress; a restart after a sweep that failed part-way and was never completed is not enumerated (owned by C16, known finding crash-mid-prune)", "go map iteration order inside juno not controlled")
 	r.Finish()
 }
 
